@@ -23,3 +23,5 @@ pub assume_specification[ std::io::Error::kind ](e: &std::io::Error) -> (r: std:
 pub assume_specification[ <std::io::Error as From<std::io::ErrorKind>>::from ](k: std::io::ErrorKind) -> (r: std::io::Error)
     ensures io_error_kind(r) == k;
 //@trusted std::io::Error: opaque; `Error::from(kind).kind() == kind` (std documentation)
+
+pub uninterp spec fn nz_value(n: std::num::NonZeroUsize) -> usize;
